@@ -4,8 +4,8 @@ from . import tree
 FOCUS = tree.ATOMIC_CLAUSES
 QUICK = {"names": ["A", "B"], "objs": 3, "nvals": 1, "kids": 2, "held": 1, "state_fraction": 0.06, "extra_paths": 1, "only": "rejected",
          "walks": {"names": ["A", "B", "C"], "objs": 6, "kids": 4, "held": 2, "num": 140, "depth": 40}}
-THOROUGH = {"names": ["A", "B"], "objs": 3, "nvals": 1, "kids": 2, "held": 1, "state_fraction": 0.08, "extra_paths": 1, "only": "rejected",
-            "walks": {"names": ["A", "B", "C"], "objs": 6, "kids": 4, "held": 2, "num": 1500, "depth": 60}}
+THOROUGH = {"names": ["A", "B"], "objs": 3, "nvals": 1, "kids": 2, "held": 1, "state_fraction": 0.06, "extra_paths": 1, "only": "rejected",
+            "walks": {"names": ["A", "B", "C"], "objs": 6, "kids": 4, "held": 2, "num": 500, "depth": 50}}
 
 
 def signature(e, clause):
